@@ -26,7 +26,7 @@ def stddev(simulations: np.array) -> np.array:
 def mc_stddev(simulations: np.array) -> np.array:
     if simulations.size == 0:
         return 0.0
-    return stddev(simulations) / np.sqrt(simulations.size)
+    return stddev(simulations) / np.sqrt(simulations.shape[0])
 
 
 def skewness(simulations: np.array) -> np.array:
